@@ -223,9 +223,14 @@ def trace_stage(prop, name, scen, seed, module="TraceVerify", consts=None, calls
     st.notes["recorded"] = info
     # split by scenario groups so files validate in parallel
     groups = {}
+    kinds = {}
     for line in open(tp):
         e = json.loads(line)
         groups.setdefault(e["scen"] // per_file, []).append(line)
+        k = e["ev"] + ("+arith" if (e["ev"] == "VMSM" and e.get("arith")) or (e["ev"] == "PCall" and e.get("arith")) else "")
+        kinds[k] = kinds.get(k, 0) + 1
+    # how much of the trace is the substantive kind (final checks with scalars, prover calls with coordinates)
+    st.notes["event_kinds"] = {k: v for k, v in kinds.items() if k.startswith(("V", "P"))}
     files = []
     for g, lines in sorted(groups.items()):
         fp = os.path.join(wd, f"part{g}.ndjson")
